@@ -66,8 +66,8 @@ pub fn generate(prop: &str, seed: u64, idx: u64, tier: Tier) -> Plan {
 
 pub fn budget(_prop: &str, tier: Tier) -> u64 {
     match tier {
-        Tier::Quick => 600,
-        Tier::Thorough => compatible_points().len() as u64 + 4000,
+        Tier::Quick => 8000,
+        Tier::Thorough => compatible_points().len() as u64 + 100_000,
     }
 }
 
